@@ -26,6 +26,7 @@ var c10Good = []string{
 	`m = {"a": 1}; m.a = 2; println(m, len("abc"), [1, 2][0])`,
 	`func lp() { t = 0; for k = 4 { if k == 2 { continue }; t = t + k }; t }; println(lp())`,
 	`println(catch(for i9 = 2 { i9 = "a" }).err)`, // observes whether top level loops still get a register
+	`DEPTHPROBE`, // replaced by the deepest recursion that still fits under MaxDepth: fails if any depth level leaked
 }
 
 // failing inputs that complete no side effect. "CTX:" marks inputs run under an already cancelled context.
@@ -47,6 +48,7 @@ var c10Bad = []string{
 	`func(a, b) { a + b }(1)`,
 	`for z1 = 2 { for z2 = 3 { verif_panic() } }`, // leaves registers allocated in the root environment (its loop variables are not observed by the succeeding inputs)
 	`for z3 = 2 { rec(100) }`,                      // depth overflow (or unknown function) inside a counted loop at top level
+	`break`, `if true { continue }`, `func() { break }()`, `for true { func() { continue }() }`,
 }
 
 const c10MaxDepth = 60
@@ -55,9 +57,33 @@ func c10Deep() string {
 	return strings.Repeat("-(", c10MaxDepth+20) + "1" + strings.Repeat(")", c10MaxDepth+20)
 }
 
+var c10ProbeSrc string
+
+// c10DepthProbe finds (once) the largest n for which a recursion of depth n fits under c10MaxDepth on a fresh state.
+func c10DepthProbe() string {
+	if c10ProbeSrc != "" {
+		return c10ProbeSrc
+	}
+	def := "func dp(n) { if n == 0 { 0 } else { 1 + dp(n - 1) } }; "
+	best := 1
+	for n := 1; n < c10MaxDepth; n++ {
+		x := newSess(sessCfg{maxDepth: c10MaxDepth})
+		r := x.step(def + fmt.Sprintf("println(dp(%d))", n))
+		if r.panicked || len(r.errs) > 0 {
+			break
+		}
+		best = n
+	}
+	c10ProbeSrc = def + fmt.Sprintf("println(dp(%d))", best)
+	return c10ProbeSrc
+}
+
 func c10Step(x *sess, in string) stepRec {
 	if in == "DEEP" {
 		in = c10Deep()
+	}
+	if in == "DEPTHPROBE" {
+		in = c10DepthProbe()
 	}
 	if strings.HasPrefix(in, "CTX:") {
 		ctx, cancel := context.WithCancel(context.Background())
@@ -95,7 +121,7 @@ func c10Check(h []int, noReg bool) *core.Viol {
 	var want []stepRec
 	for _, x := range h {
 		if x >= 0 {
-			want = append(want, base.step(c10Good[x]))
+			want = append(want, c10Step(base, c10Good[x]))
 		}
 	}
 	full := newSess(cfg)
@@ -112,7 +138,7 @@ func c10Check(h []int, noReg bool) *core.Viol {
 			}
 			continue
 		}
-		got := full.step(c10Good[x])
+		got := c10Step(full, c10Good[x])
 		if !sameRec(got, want[k]) {
 			// class: how the succeeding input ended after the failure + which kind of failing input preceded it last
 			lastBad := ""
